@@ -31,6 +31,7 @@ RULE = (
     "the probe alone (each in a pristine forked child). now/today are never generated. Non-trivial = data non-empty and template has a tag "
     "(purity) or history non-empty (history); distinct by content."
     " Rounds 5-6 added enumerated families: virtual clock under the date filter and the date parser (now / today / times without a date); template objects kept across other renders; refused templates repeated, then an ordinary one."
+    " Round 7 added: purity of templates that load partials; back references in the tree dump."
 )
 REQUIRED = [  # entered in this process by the purity workload; the history workload runs in forked children and is shown by the memo counters
     ("liquid/builtin/filters/array.py", "sort"),
